@@ -1,7 +1,7 @@
 """Profiles (TLC model configurations) and per-property checks."""
 from __future__ import annotations
 
-MODEL_PROPS = ["HeapAppendOnly", "RowPreserving", "MutateFrame", "FilterSliceSubseq", "SummarizeRows", "ArrangePermutes"]
+MODEL_PROPS = ["ObsPure", "HeapAppendOnly", "RowPreserving", "MutateFrame", "FilterSliceSubseq", "SummarizeRows", "ArrangePermutes"]
 
 # index into SrcTables (1-based): 1 t1, 2 t2 (join partner), 3 t3 (union partner), 4 t4 empty, 5 t5 single row,
 # 6, 7: seed-generated
@@ -19,7 +19,7 @@ def prof(base, moves, depth, srcs=None, heaps="SrcHeapsCore", **kw):
 def prof2(moves, depth, pairs, **kw):
     p = dict(base="MC_Heap", overrides=dict(Moves=moves, SrcHeaps="SrcHeapsPair"),
              defs=dict(MaxDepth=depth, SrcPairs=pairs),
-             invariants=["ScopeWF"], properties=MODEL_PROPS, timeout=kw.pop("timeout", 600))
+             invariants=["WF1", "WF2", "WF3", "WF4", "WF5", "WF6", "WF7", "ScopeWF"], properties=MODEL_PROPS, timeout=kw.pop("timeout", 600))
     p.update(kw)
     return p
 
@@ -28,6 +28,10 @@ PROFILES = {
     "join2": prof2("MovesJoin", 2, [[1, 2], [1, 4], [4, 2], [6, 2]]),
     "join3": prof2("MovesJoin", 3, [[1, 2], [6, 2]]),
     "union2": prof2("MovesUnion", 2, [[1, 3], [1, 4], [3, 1], [4, 4]]),
+    "ref3": prof2("MovesRef", 3, [[1, 2], [6, 2]]),
+    "ref4": prof2("MovesRef", 4, [[1, 2]]),
+    "reroot3": prof2("MovesReroot", 3, [[1, 1], [6, 6]], overrides=dict(Moves="MovesReroot", SrcHeaps="SrcHeapsOne")),
+    "reroot4": prof2("MovesReroot", 4, [[1, 1]], overrides=dict(Moves="MovesReroot", SrcHeaps="SrcHeapsOne")),
     "union3": prof2("MovesUnion", 3, [[1, 3], [3, 6]]),
     "core2": prof("MC_Core", "MovesCore", 2),
     "core3": prof("MC_Core", "MovesCore", 3, srcs=[1, 6]),
@@ -81,6 +85,16 @@ CHECKS = {
         clauses=GEN_CLAUSES_SPEC,
         phases=dict(quick=[dict(profile="win2"), dict(profile="wins3")],
                     thorough=[dict(profile="win2"), dict(profile="win3"), dict(profile="wins4")]),
+    ),
+    "C09": dict(
+        level="model_checking",
+        clauses=GEN_CLAUSES_SPEC | {"errclass", "getname"},
+        phases=dict(quick=[dict(profile="ref3")], thorough=[dict(profile="ref3"), dict(profile="ref4")]),
+    ),
+    "C16": dict(
+        level="model_checking",
+        clauses=GEN_CLAUSES_SPEC | {"errclass", "getname"},
+        phases=dict(quick=[dict(profile="reroot3")], thorough=[dict(profile="reroot3"), dict(profile="reroot4")]),
     ),
     "C11": dict(
         level="model_checking",
